@@ -133,12 +133,12 @@ def expected_vector(e):
     return out
 
 
-def flow_cfg(name, ncfg, maxseg, ticks, first, later):
+def flow_cfg(name, ncfg, maxseg, ticks, first, later, tdep=(0, 1)):
     p = os.path.join(vlib.BUILD, name + ".cfg")
     with open(p, "w") as f:
-        f.write("SPECIFICATION Spec\nCONSTANTS\n  NCfg = %d\n  MaxSeg = %d\n  Ticks = {%s}\n  FirstSw = {%s}\n  LaterSw = {%s}\n"
-                "INVARIANTS Semigroup ZeroIsIdentity Hermitian AllOffFrame\nACTION_CONSTRAINT Emit\nCHECK_DEADLOCK FALSE\n" % (
-                    ncfg, maxseg, ",".join(map(str, ticks)), ",".join(map(str, first)), ",".join(map(str, later))))
+        f.write("SPECIFICATION Spec\nCONSTANTS\n  NCfg = %d\n  MaxSeg = %d\n  Ticks = {%s}\n  FirstSw = {%s}\n  LaterSw = {%s}\n  TDep = {%s}\n"
+                "INVARIANTS Semigroup SemigroupT ZeroIsIdentity Hermitian AllOffFrame\nACTION_CONSTRAINT Emit\nCHECK_DEADLOCK FALSE\n" % (
+                    ncfg, maxseg, ",".join(map(str, ticks)), ",".join(map(str, first)), ",".join(map(str, later)), ",".join(map(str, tdep))))
     return p
 
 
@@ -150,12 +150,14 @@ def flow_script(hist, cfg, mode, t04, move_kind, order_seed=0, scale_e2=0):
     import random as _r
     rng = _r.Random(order_seed)
     nx, nsun, nrhos, nsc = cfg
-    cmds = ["QUIET 1", "NEW 1 %d %d %d %d %d" % (nx, nsun, nrhos, nsc, t04)] + mode_cmds(1, mode, ticks=max([1] + [n for _, n in hist]))
+    cmds = ["QUIET 1", "NEW 1 %d %d %d %d %d" % (nx, nsun, nrhos, nsc, t04)] + mode_cmds(1, mode, ticks=max([1] + [h[1] * (3 if h[2] else 1) for h in hist]))
+    if hist and hist[0][2]:
+        cmds.append("TDEP 1 1")
     if scale_e2:
         cmds += ["SCALE 1 %d" % scale_e2, "TOL 1 %s 1e-300" % ("1e-8" if mode[0] == "rk2" else "1e-10")]
     cur = 1
     prev = None
-    for si, (sw, n) in enumerate(hist):
+    for si, (sw, n, _td) in enumerate(hist):
         if si > 0 and move_kind:
             if move_kind == 1:
                 cmds.append("MOVECTOR 2 1")
